@@ -353,8 +353,16 @@ package tq
 // C02 / C09: custom transfer agents.  What the external process says it
 // downloaded is re-hashed by git-lfs itself and only then renamed to the
 // object path; a failed transfer leaves the object path alone.
+// C03 (upload direction): the custom / standalone transfer process is sent
+// the transfer's own oid, size and path, and the upload counts as done only
+// after its "complete" for that oid, without error, was followed by a
+// successful verification.
 //@ func (*customAdapter).DoTransfer
-//@   props C02 C09 C06
+//@   props C02 C09 C06 C03
+//@   at call tq.NewCustomAdapterUploadRequest:1 assert @C03 arg0__ == t.Oid && arg1__ == t.Size && arg2__ == t.Path && arg3__ == rel
+//@   at call tq.verifyUpload:1 assert @C03 arg2__ == t && resp.Oid == t.Oid && resp.Error == nil
+//@   loop 1 invariant @C03 complete && a.direction == Upload ==> verified(t)
+//@   ensures @C03 result == nil && old(a.direction) == Upload ==> verified(t)
 //@   ensures @C06 fncalls() <= old(fncalls()) + 1
 //@   requires @inv t != nil && t.Path == objpath(t.Oid)
 //@   requires @inv fexists(t.Path) ==> hexsha(fdata(t.Path)) == t.Oid
